@@ -46,6 +46,9 @@ CLAIMS = {
     "C13": ("a grammar of user forms (diffusion, anisotropic and non-symmetric diffusion, scalar and vector advection, scalar and vector mass, isotropic elasticity in five algebraically equal spellings, scalar and vector sources), each in several spellings and with constant / per-element / per-Gauss-point / coordinate-dependent coefficients, is integrated with BiLinearForm / LinearForm.Integrate_e on every element type and both quadrature rules and compared with the built-in operator (or, for non-symmetric forms, with a first-principles einsum reference on the same shape-function tables); Assemble against the loop scatter-add; WeakForms simulations against the dedicated Thermal / Elastic ones (static, parabolic, hyperbolic) and against the analytic advection-diffusion solution",
             "groups <= 40 elements; same matrixType on both sides; time-dependent twins on element types where both rules integrate the stiffness exactly",
             "reference-model oracle (built-in operators / first-principles einsum / dedicated simulations) on executed user forms"),
+    "C14": ("random histories of public mutations (model / material parameter writes incl. relative changes down to 1e-7, density, Rayleigh damping, Translate / Rotate / Symmetry, coordinate assignment, mesh replacement by another or by a same-connectivity mesh, Bc_Init + re-add, time-scheme switches, Save_Iter / Set_Iter across meshes, load-step commits of the non-linear kinds, a model shared by two simulations) are applied to one live simulation of every kind (Elastic iso / anisotropic, Thermal, Beam, WeakForms, PhaseField, HyperElastic static and dynamic, InElastic); after each mutation burst K, C, M, F, Solve, velocity and Svm of the live object are compared with a brand-new simulation built from the recorded final configuration; a mismatch only counts when a second twin perturbed by one unit of round-off agrees with the first (conditioning guard)",
+            "sequences <= 22 operations; meshes <= ~60 elements; non-linear kinds are compared from the zero state and not after a committed load step until the mesh is replaced (internal variables cannot be handed to a new simulation through the public interface); beam meshes are not moved",
+            "differential oracle (fresh-twin reference execution) over recorded mutation histories of live simulation objects"),
 }
 
 
